@@ -409,6 +409,9 @@ func c20EmitRead(sf []string, c *pgCompiled, in []byte, disallow, byName bool) {
 		p := binary.NewBinaryProtol(append([]byte{}, in...))
 		g, rerr = p.ReadAnyWithDesc(c.Dyn, false, true, disallow, byName)
 		left = p.Left()
+		// readers are recycled: the next NewBinaryProtol / NewBinaryProtocolBuffer gets this object back from the pool
+		// and must start at position 0 of ITS buffer (strings were copied, []byte values alias our own copy of the input)
+		binary.FreeBinaryProtocol(p)
 	})
 	fields := append(append([]string{}, sf...), fb(byName), fb(disallow), "n0", fx(in))
 	switch {
